@@ -17,6 +17,36 @@ import sys
 import time
 
 
+def stub_number_formatting():
+    """Environment stub (part of every engine-S claim): an f-string / format() of a *symbolic number* with an empty
+    format spec yields the placeholder text '<n>' instead of realising the number digit by digit (CrossHair would
+    otherwise enumerate concrete values for every log/error message func_adl formats).  Only message texts are
+    affected; str()/repr() are untouched."""
+    from crosshair.libimpl import builtinslib
+    from crosshair.core import realize
+
+    def _fmt(self, fmt):
+        if isinstance(fmt, str) and fmt == "":
+            return "<n>"
+        return realize(self).__format__(realize(fmt))
+
+    builtinslib.SymbolicNumberAble.__format__ = _fmt
+    from crosshair import opcode_intercept
+    from crosshair.tracers import NoTracing
+
+    orig = opcode_intercept.FormatStashingValue.__format__
+
+    def _stash_format(self, fmt):
+        with NoTracing():
+            stub = type(fmt) is str and fmt == "" and isinstance(self.value, builtinslib.SymbolicNumberAble)
+        if stub:
+            self.formatted = "<n>"
+            return ""
+        return orig(self, fmt)
+
+    opcode_intercept.FormatStashingValue.__format__ = _stash_format
+
+
 def run(module, fn_name, lo, hi, cond_timeout, path_timeout, mode):
     os.environ["VERIF_LO"] = str(lo)
     os.environ["VERIF_HI"] = str(hi)
@@ -35,6 +65,7 @@ def run(module, fn_name, lo, hi, cond_timeout, path_timeout, mode):
             stats["solver_s"] += time.perf_counter() - t
 
     z3.Solver.check = counting_check
+    stub_number_formatting()
     from crosshair.core_and_libs import analyze_function, run_checkables
     from crosshair.options import AnalysisOptionSet
 
